@@ -986,6 +986,71 @@ def generate_layout(repo=None):
             "From Coq Require Import List.\nImport ListNotations.\n\n" % (hashlib.sha256(s1.encode()).hexdigest()[:16], hashlib.sha256(s2.encode()).hexdigest()[:16])) + body
 
 
+# ------------------------------------------------------------------ SplineMethod: coefficients of an integrator chain
+def translate_spline(tree):
+    """SplineMethod.add_variables: the head of a chain of length L gets N+d free coefficients of degree d = L-1; member i+1
+    gets bspline_derivative(member i, xi, d-i)/T.  SplineMethod.sample_xu: member i is sampled with the basis of degree
+    (width - N) on the same knots."""
+    fn = _find_method(tree, "SplineMethod", "add_variables")
+    outer = [s_ for s_ in fn.body if isinstance(s_, ast.For) and ast.unparse(s_.iter) == "self.groups.items()"]
+    if len(outer) != 1 or ast.unparse(outer[0].target) != "(L, chains)":
+        _fail(fn, "SplineMethod.add_variables: loop over the chain groups")
+    body = outer[0].body
+    srcs = [ast.unparse(s_) for s_ in body]
+    if srcs[0] != "d = L - 1" or srcs[1] != "s = self.N + d" or srcs[2] != "e = opti.variable(len(chains), s)":
+        raise Untranslatable("SplineMethod.add_variables: degree / number of coefficients / head variable: %r" % srcs[:3])
+    inner = [s_ for s_ in body if isinstance(s_, ast.For)]
+    if len(inner) != 1 or ast.unparse(inner[0].iter) != "range(L)" or ast.unparse(inner[0].target) != "i":
+        _fail(outer[0], "SplineMethod.add_variables: loop over the chain members")
+    ib = inner[0].body
+    if ast.unparse(ib[0]) != "self.coeffs_and_der[L].append(e)":
+        _fail(ib[0], "member i must be stored before it is differentiated")
+    last = ib[-1]
+    if not (isinstance(last, ast.If) and ast.unparse(last.test) == "d - i > 0" and len(last.body) == 1 and not last.orelse):
+        _fail(last, "derivative step")
+    st = last.body[0]
+    if not (isinstance(st, ast.Assign) and ast.unparse(st.targets[0]) == "e"):
+        _fail(st, "derivative step")
+    v = st.value
+    # bspline_derivative(e, self.xi, d - i) / self.T
+    if not (isinstance(v, ast.BinOp) and isinstance(v.op, ast.Div) and ast.unparse(v.right) == "self.T" and _is_call(v.left, "bspline_derivative")
+            and [ast.unparse(x) for x in v.left.args] == ["e", "self.xi", "d - i"]):
+        _fail(st, "derivative step: expected bspline_derivative(e, self.xi, d - i) / self.T")
+    widths = [s_ for s_ in ast.walk(inner[0]) if isinstance(s_, ast.Assign) and ast.unparse(s_.targets[0]) == "self.widths[v_index]"]
+    if len(widths) != 1 or ast.unparse(widths[0].value) != "s - i":
+        _fail(inner[0], "width of member i")
+    # sample_xu
+    fn2 = _find_method(tree, "SplineMethod", "sample_xu")
+    txt = ast.unparse(fn2)
+    need = ["[tau, B] = eval_on_knots(self.xi, dmax - i, subsamples=refine - 1)", "d = dmax - i", "self.B[refine][self.N + d] = B",
+            "xu_sampled = self.coeffs_and_der[L][i] @ self.B[refine][s - i]",
+            "self.time[refine] = vec(self.t0 + self.T * tau)"]
+    for n_ in need:
+        if n_ not in txt:
+            raise Untranslatable("SplineMethod.sample_xu: statement not found: " + n_)
+    return ("(* degree and number of coefficients of the head of a chain of length L on N intervals *)\n"
+            "Definition gen_spline_degree (L : nat) : nat := L - 1.\n"
+            "Definition gen_spline_ncoeff (N d : nat) : nat := N + d.\n"
+            "(* member i+1 from member i (degree d - i) *)\n"
+            "Definition gen_spline_next (e xi : list F) (d i : nat) (T : F) : list F := vdivs (bspline_derivative e xi (d - i)) T.\n"
+            "Fixpoint gen_spline_member (c xi : list F) (d : nat) (T : F) (r : nat) : list F :=\n"
+            "  match r with O => c | S r' => gen_spline_next (gen_spline_member c xi d T r') xi d r' T end.\n"
+            "(* member i has N + d - i coefficients and is sampled with the basis stored under that width: degree width - N *)\n"
+            "Definition gen_spline_width (N d i : nat) : nat := gen_spline_ncoeff N d - i.\n"
+            "Definition gen_spline_basis_degree (N width : nat) : nat := width - N.\n"
+            "(* sampling instants: physical time t0 + T * tau for the normalized instants tau of eval_on_knots *)\n"
+            "Definition gen_spline_time (t0 T tau : F) : F := t0 +! T *! tau.\n")
+
+
+def generate_spline(repo=None):
+    repo = repo or REPO
+    src = open(os.path.join(repo, "rockit", "spline_method.py")).read()
+    body = translate_spline(ast.parse(src))
+    return ("(* GENERATED on every run by harness/translate.py from rockit/spline_method.py (sha256 %s).  Do not edit. *)\n"
+            "From Coq Require Import ZArith QArith List.\nFrom RV Require Import Base.Num Base.Vec Mech.Spline.\nImport ListNotations.\n\n"
+            "Section GenSpline.\nContext {F : Type} {OF : Ops F}.\n\n" % hashlib.sha256(src.encode()).hexdigest()[:16]) + body + "\nEnd GenSpline.\n"
+
+
 HEADER = """(* GENERATED on every run by harness/translate.py from %s (sha256 %s).
    Do not edit: the file is rewritten from the working tree before Tie/IntgTie.v is checked. *)
 From Coq Require Import ZArith QArith List.
@@ -1048,6 +1113,7 @@ TIES = {
     "Smp": (generate_smp, "SmpGen.v", "SmpTie.v"),
     "Shoot": (generate_shoot, "ShootGen.v", "ShootTie.v"),
     "Layout": (generate_layout, "LayoutGen.v", "LayoutTie.v"),
+    "Spline": (generate_spline, "SplineGen.v", "SplineTie.v"),
 }
 
 
